@@ -824,3 +824,21 @@ def mon_accept_current(case):
             if m and m.group(1) == cur:
                 deadline = int(m.group(2))
     return out
+
+
+def mon_lifecycle(case):
+    """C12 / C18 (model-free): a `next` is answered 200 only with an invocation (a request id) — never with
+    an empty event because something else released the parked call; and the error type a failed restore
+    carries is a sanitised one (Runtime.X / Function.X)."""
+    out = []
+    for i, (ws, obs, side) in enumerate(case["steps"]):
+        for e in entries(obs):
+            if e.startswith("rt.next=200,") and not re.match(r"rt\.next=200,id#\d+,", e):
+                out.append(f"step {i+1}: the runtime's next was answered 200 without an invocation ({e[:60]}): next blocks until an invocation is available")
+            m = re.match(r"restore done err=userError:(.*)$", e)
+            if m and not re.fullmatch(r"(Runtime|Function)\.[A-Z][a-zA-Z]+", m.group(1)):
+                out.append(f"step {i+1}: the restore failed with the unsanitised error type {m.group(1)!r}")
+            m = re.match(r"ev restoreRuntimeDone:error:(.*)$", e)
+            if m and not re.fullmatch(r"(Runtime|Function)\.[A-Z][a-zA-Z]+", m.group(1)):
+                out.append(f"step {i+1}: the restore runtime-done event carries the unsanitised error type {m.group(1)!r}")
+    return out
